@@ -49,6 +49,9 @@
 (declare-fun SignsAs (Iface Str) Bool)
 ;; spec VCHeaderBytes (Int Int Int Int Int) Str
 (declare-fun VCHeaderBytes (Int Int Int Int Int) Str)
+; A-MB-RT: the bytes of a VIEW_CHANGE header encoded again, field by field, from a reader of it (what a NEW_VIEW carries)
+;; spec ReencVC (Int) Str
+(declare-fun ReencVC (Int) Str)
 ;; spec NVHeaderBytes (Int Int Int Int Slice_Int) Str
 (declare-fun NVHeaderBytes (Int Int Int Int Slice_Int) Str)
 (declare-fun VerifiedSeed (Iface Int Str Str Str) Bool)
